@@ -105,7 +105,7 @@ func runC05(r *Result, d *drv.Driver, tier string, seed int64, replay string) {
 	if tier == "thorough" {
 		nValid = 600
 	}
-	r.Rule = fmt.Sprintf("per-call allocation (runtime.MemStats.TotalAlloc delta) of the real Decode on: valid messages; every item position of every message (string, bytes, structure, skipped, fixed) with its declared length replaced by each of {0, 1, 2^16, 2^20, 2^30, 2^31, 2^32-8, 2^32-1}, with and without truncating the input right after that header, the same lie under another item type (structure / text / bytes), every Integer / Enumeration value (counts such as Batch Count) set to 2^16 / 2^20 / 2^22, and the same with every enclosing structure's length inflated consistently (so the lying item fits its parents); long values lying about their length while backed by 4-12 KiB of real payload; random mutations; every one of these measurements is also compared with what the cost semantics of the decoder model (KmipModel/DecodeCost.lean, driver `deccost`) charges for that very input - the real allocation must stay below the model's charge with its fixed part taken as 16 KiB, and the charge below the proved bound; a transport that starts failing for good (temporary / timeout net.Error, os.ErrDeadlineExceeded) at every 8-byte boundary and inside every item of two messages; honest messages of 64 KiB, 512 KiB and 4 MiB (long byte string, long text string, long run of items) whose per-byte cost must not grow with their size (<= 4x the 64 KiB value + 8). "+
+	r.Rule = fmt.Sprintf("per-call allocation (runtime.MemStats.TotalAlloc delta) of the real Decode on: valid messages; every item position of every message (string, bytes, structure, skipped, fixed) with its declared length replaced by each of {0, 1, 2^16, 2^20, 2^30, 2^31, 2^32-8, 2^32-1}, with and without truncating the input right after that header, the same lie under another item type (structure / text / bytes), every Integer / Enumeration value (counts such as Batch Count) set to 2^16 / 2^20 / 2^22, and the same with every enclosing structure's length inflated consistently (so the lying item fits its parents); long values lying about their length while backed by 4-12 KiB of real payload; random mutations; every one of these measurements is also compared with what the cost semantics of the decoder model (KmipModel/DecodeCost.lean, driver `deccost`) charges for that very input - the real allocation must stay below the model's charge with its fixed part taken as 16 KiB, and the charge below the proved bound; a small hostile message decoded by a Decoder that has just decoded an honest message with a 64 KiB / 1 MiB / 8 MiB value (allocation per call, whatever the Decoder saw before); a transport that starts failing for good (temporary / timeout net.Error, os.ErrDeadlineExceeded) at every 8-byte boundary and inside every item of two messages; honest messages of 64 KiB, 512 KiB and 4 MiB (long byte string, long text string, long run of items) whose per-byte cost must not grow with their size (<= 4x the 64 KiB value + 8). "+
 		"Violation: allocation > %d x input length + %d bytes (the model's linear bound with A = %d). distinct = distinct input; non-trivial = carries a hostile length", allocA, allocB, allocA)
 	types := allDecodeTypes()
 	g := gen.New(seed)
@@ -314,6 +314,80 @@ func runC05(r *Result, d *drv.Driver, tier string, seed int64, replay string) {
 	c05Scaling(r)
 	c05Fragmented(r)
 	c05Faults(r)
+	c05History(r)
+}
+
+// c05History: "allocation measured per Decode call" - on a connection one Decoder decodes message after message, and what a
+// call may allocate is bounded by the bytes available to THAT call, not by anything the Decoder has seen before. One Decoder
+// first decodes honest messages carrying large values (64 KiB, 1 MiB, 8 MiB strings and byte strings, a long run of items);
+// then, on the same Decoder, a message of about a hundred bytes whose string / byte string / structure declares 2^20, 2^30 or
+// 2^32-16 bytes. The second call alone is measured.
+func c05History(r *Result) {
+	ver := kmip.ProtocolVersion{Major: 1, Minor: 4}
+	enc := func(v interface{}) []byte {
+		var b bytes.Buffer
+		if err := kmip.NewEncoder(&b).Encode(v); err != nil {
+			return nil
+		}
+		return b.Bytes()
+	}
+	for _, big := range []int{64 << 10, 1 << 20, 8 << 20} {
+		firsts := []struct {
+			name string
+			typ  string
+			data []byte
+		}{
+			{fmt.Sprintf("Request / Get with a Unique Identifier of %d bytes", big), "Request", enc(&kmip.Request{Header: kmip.RequestHeader{Version: ver, BatchCount: 1},
+				BatchItems: []kmip.RequestBatchItem{{Operation: kmip.OPERATION_GET, RequestPayload: kmip.GetRequest{UniqueIdentifier: strings.Repeat("u", big)}}}})},
+			{fmt.Sprintf("Request with a Unique Batch Item ID of %d bytes", big), "Request", enc(&kmip.Request{Header: kmip.RequestHeader{Version: ver, BatchCount: 1},
+				BatchItems: []kmip.RequestBatchItem{{Operation: kmip.OPERATION_GET, UniqueID: bytes.Repeat([]byte{9}, big), RequestPayload: kmip.GetRequest{UniqueIdentifier: "k"}}}})},
+		}
+		small := enc(&kmip.Request{Header: kmip.RequestHeader{Version: ver, ClientCorrelationValue: "c", BatchCount: 1},
+			BatchItems: []kmip.RequestBatchItem{{Operation: kmip.OPERATION_GET, UniqueID: []byte{1, 2, 3}, RequestPayload: kmip.GetRequest{UniqueIdentifier: "0123456789"}}}})
+		for _, first := range firsts {
+			if first.data == nil || small == nil {
+				continue
+			}
+			for _, nd := range mut.All(mut.Parse(small)) {
+				if nd.Typ != 7 && nd.Typ != 8 && nd.Typ != 1 {
+					continue
+				}
+				for _, hl := range []uint32{1 << 20, 1 << 30, 1<<32 - 16} {
+					second := append([]byte(nil), small...)
+					binary.BigEndian.PutUint32(second[nd.Off+4:], hl)
+					for p := nd.Parent; p != nil; p = p.Parent {
+						binary.BigEndian.PutUint32(second[p.Off+4:], hl+uint32(p.End-p.Off))
+					}
+					key := fmt.Sprintf("history: one Decoder, first %s, then a %d-byte Request whose item %06x (type %d) declares %d bytes", first.name, len(second), nd.Tag, nd.Typ, hl)
+					crumb("C05 " + key)
+					r.eval(key, true)
+					stream := append(append([]byte(nil), first.data...), second...)
+					dec := kmip.NewDecoder(bytes.NewReader(stream))
+					var m1 kmip.Request
+					if err := dec.Decode(&m1); err != nil {
+						r.find(Finding{Kind: "disagreement", What: "the honest first message of a history scenario was not decoded", Input: key, Actual: err.Error()})
+						continue
+					}
+					var m0, mAfter runtime.MemStats
+					var m2 kmip.Request
+					runtime.ReadMemStats(&m0)
+					err := dec.Decode(&m2)
+					runtime.ReadMemStats(&mAfter)
+					alloc := mAfter.TotalAlloc - m0.TotalAlloc
+					r.Stats["history-measurements"]++
+					bound := uint64(allocA*len(second) + allocB)
+					if alloc > bound {
+						r.find(Finding{Kind: "violation", What: "a Decode call allocated more than the linear bound in the bytes available to it: the allocation follows what the Decoder has seen in earlier calls",
+							Input:  map[string]string{"scenario": key, "second_message": hx(second)},
+							Expect: fmt.Sprintf("<= %d", bound), Actual: fmt.Sprintf("%d (outcome: %v)", alloc, err)})
+					}
+					if err == nil {
+						r.find(Finding{Kind: "violation", What: "Decode reported success for a message declaring more bytes than arrived", Input: map[string]string{"scenario": key, "second_message": hx(second)}, Expect: "an error", Actual: "nil"})
+					}
+				}
+			}
+		}
+	}
 }
 
 type tempNetErr struct{ timeout bool }
